@@ -68,6 +68,7 @@ class UnitInference:
         self.text_reads = 0
         self.constraints = 0
         self.misuse: list[tuple[ast.AST, str]] = []
+        self.dblvars: set[str] = set()
 
     # ---------------------------------------------------------------- kinds
     def k(self, e: ast.AST | None) -> str | None:
@@ -124,7 +125,52 @@ class UnitInference:
         return Handle(h)
 
     def var(self, name: str) -> Handle:
-        return Handle("v:" + name)
+        return Handle("v:" + name, name in self.dblvars)
+
+    def is_dbl(self, e: ast.AST | None) -> bool:
+        """Syntactic scale of an expression: a byte offset / byte length of a UTF-16 buffer
+        (2 x position).  Used to give a local that holds such a value (`n = len(units)`) the
+        scale of its defining expression."""
+        if isinstance(e, ast.Name):
+            return e.id in self.dblvars
+        if isinstance(e, ast.Call) and isinstance(e.func, ast.Name):
+            if e.func.id == "len" and len(e.args) == 1:
+                return self.k(e.args[0]) == "BYTES16"
+            if e.func.id in ("min", "max", "int", "abs") and e.args:
+                return any(self.is_dbl(a) for a in e.args)
+            return False
+        if isinstance(e, ast.BinOp):
+            if isinstance(e.op, (ast.Add, ast.Sub)):
+                return self.is_dbl(e.left) or self.is_dbl(e.right)
+            if isinstance(e.op, ast.Mult):
+                return any(isinstance(a, ast.Constant) and a.value == 2 and not self.is_dbl(b) for a, b in ((e.left, e.right), (e.right, e.left)))
+            return False
+        if isinstance(e, ast.IfExp):
+            return self.is_dbl(e.body) or self.is_dbl(e.orelse)
+        if isinstance(e, ast.UnaryOp) and isinstance(e.op, (ast.USub, ast.UAdd)):
+            return self.is_dbl(e.operand)
+        return False
+
+    def infer_scales(self) -> None:
+        pairs: list[tuple[str, ast.AST]] = []
+        for n in ast.walk(self.fn.node):
+            if isinstance(n, ast.Assign):
+                for t in n.targets:
+                    if isinstance(t, ast.Name):
+                        pairs.append((t.id, n.value))
+                    elif isinstance(t, (ast.Tuple, ast.List)) and isinstance(n.value, (ast.Tuple, ast.List)) and len(t.elts) == len(n.value.elts):
+                        pairs += [(a.id, b) for a, b in zip(t.elts, n.value.elts) if isinstance(a, ast.Name)]
+            elif isinstance(n, ast.AnnAssign) and n.value is not None and isinstance(n.target, ast.Name):
+                pairs.append((n.target.id, n.value))
+            elif isinstance(n, ast.NamedExpr) and isinstance(n.target, ast.Name):
+                pairs.append((n.target.id, n.value))
+        changed = True
+        while changed:
+            changed = False
+            for nm, val in pairs:
+                if nm not in self.dblvars and self.is_dbl(val):
+                    self.dblvars.add(nm)
+                    changed = True
 
     def unify(self, a: Handle | None, b: Handle | None, site: ast.AST) -> Handle | None:
         if a is None:
@@ -286,6 +332,7 @@ class UnitInference:
 
     def run(self) -> None:
         self.infer_kinds()
+        self.infer_scales()
         fn = self.fn.node
         for sub in ast.walk(fn):
             if isinstance(sub, (ast.FunctionDef, ast.AsyncFunctionDef)):
